@@ -226,3 +226,56 @@ def run_swap(w):
         bad += ["[0-] " + b for b in check_valid(q0, w["intf0"], w["start_cond0"], w["maxlength"])]
         bad += ["[0+] " + b for b in check_valid(q1, w["intf1"], ("L",), w["maxlength"])]
     return bad, info
+
+
+def run_quantis(w):
+    """w: dict(old0, old1, vpot0, vpot1, lam0, maxlength, back, forw, one0, one1, v_one0, v_one1, beta0, beta1, u, accept_all).
+    Runs the REAL quantis_swap_zero; checks the energy acceptance rule and status consistency."""
+    import math
+    from infretis.core import tis
+
+    old0, old1 = mk_old_path(w["old0"]), mk_old_path(w["old1"])
+    for p, vs in ((old0, w["vpot0"]), (old1, w["vpot1"])):
+        for x, v in zip(p.phasepoints, vs):
+            x.vpot, x.ekin = v, 0.0
+    b0, b1 = frames_snapshot(old0), frames_snapshot(old1)
+    lam0 = w["lam0"]
+    tis_set = {"maxlength": w["maxlength"], "accept_all": w.get("accept_all", False), "quantis": True}
+    rg = ScriptRgen(randoms=[w["u"]])
+    e0 = {"interfaces": (-10.0, lam0, lam0), "tis_set": tis_set, "rgen": rg, "start_cond": ("R",), "ens_name": "000", "mc_move": "sh"}
+    e1 = {"interfaces": (lam0, lam0, 1.0), "tis_set": tis_set, "rgen": ScriptRgen(), "start_cond": ("L",), "ens_name": "001", "mc_move": "sh"}
+
+    class QE(ScriptEngine):
+        def __init__(self, scripts, beta, first_vpot):
+            super().__init__(scripts, beta)
+            self.first_vpot = list(first_vpot)
+
+        def propagate(self, path, ens_set, system, reverse=False):
+            n0 = len(path.phasepoints)
+            out = super().propagate(path, ens_set, system, reverse)
+            if self.first_vpot and len(path.phasepoints) > n0:
+                path.phasepoints[n0].vpot = self.first_vpot.pop(0)
+            return out
+    eng0 = QE([w["one0"], w["back"]], w["beta0"], [w["v_one0"], 0.0])
+    eng1 = QE([w["one1"], w["forw"]], w["beta1"], [w["v_one1"], 0.0])
+    picked = {-1: {"ens": e0, "traj": old0}, 0: {"ens": e1, "traj": old1}}
+    try:
+        acc, paths, status = tis.quantis_swap_zero(picked, {-1: [eng0], 0: [eng1]})
+    except Exception as e:
+        return [f"quantis_swap_zero raised {e!r}"], {}
+    bad = []
+    info = {"accepted": acc, "status": status}
+    if acc != (status == "ACC"):
+        bad.append(f"accept={acc} but status={status}")
+    if frames_snapshot(old0) != b0 or frames_snapshot(old1) != b1:
+        bad.append("old path frames changed")
+    # energy rule: V_lo(r_lo)=old0[-2], V_lo(r_hi)=v_one0, V_hi(r_hi)=old1[0], V_hi(r_lo)=v_one1
+    if status not in ("QNE", "QLL", "QS0", "QS1"):
+        dv0 = w["vpot0"][-2] - w["v_one0"]
+        dv1 = w["v_one1"] - w["vpot1"][0]
+        pacc = min(1.0, math.exp(dv0 * w["beta0"] - dv1 * w["beta1"]))
+        passes = w.get("accept_all", False) or w["u"] <= pacc
+        info.update(pacc=pacc, passes=passes)
+        if (status == "QEA") == passes:
+            bad.append(f"energy rule: u={w['u']} pacc={pacc:.6f} (beta0={w['beta0']}, beta1={w['beta1']}) but status {status}")
+    return bad, info
